@@ -4,6 +4,10 @@ import json, os
 HERE = os.path.dirname(os.path.dirname(os.path.abspath(__file__)))
 TECH = 'contract-based deductive verification: CBMC 6.11 code contracts (goto-instrument --dfcc) on C extracted mechanically from the clang AST of /repo on every run'
 CLAIMED = {
+ 'C17': dict(
+   text='Proof (configurations base/dbg8/dbg16): debug_fill, debug_is_filled (loop contract: returns the FIRST differing byte), debug_fill_new, debug_fill_internal under contract; debug_fill_free checked through harness-encoded contracts: a corrupted fence byte is always reported with the node, its size and the first corrupted byte of that fence; intact fences are never reported whatever was written in bounds; free-list allocate/deallocate carry the new/freed patterns on every byte but the link word.',
+   note='Trusted: memset as modelled by CBMC; registered handlers abstract (call counted, arguments recorded); regions <= 64 KiB; lowlevel_allocator/virtual_memory_allocator fence placement is covered only as far as listed in the evidence (functions_under_contract).',
+   ref='8 (C17)'),
  'C19': dict(
    text='Proof: every function of the size/alignment arithmetic (is_valid_alignment, round_up_to_multiple_of_alignment, align_offset x2, is_aligned, alignment_for, ilog2_base, ilog2, ilog2_ceil, log2/identity access policies, free_list_array::get/max_node_size for all six list x policy instantiations) is under a contract whose postcondition is the mathematical definition, discharged over the full 64-bit domain (no loops, no bounds).',
    note='Trusted: clang AST, cxx2c extraction, CBMC + its model of __builtin_clzll. free_list_array::get relies on the bucket invariant node_size_[j] == max(size_from_index(j+min), min_element_size), which is the postcondition of the constructor loop (proved separately, parametric-bounded) and of the free-list constructors; bucket count for identity buckets assumed <= 4096.',
